@@ -353,6 +353,8 @@ fn scenarios(rng: &mut Rng64, thorough: bool) -> Vec<Scenario> {
         Scenario { name: "cut-resets-backoff", script: vec![Act::Rst, Act::Rst, Act::ForwardCut(300), Act::Rst, Act::Healthy], max_retry_count: 0, max_retry_interval: 800, converse_at: Some(2200), udp_after_ms: None, expect_exit: None, observe_ms: 4200 },
         Scenario { name: "orderly-close", script: vec![Act::ForwardWsClose(300), Act::Healthy], max_retry_count: 0, max_retry_interval: 400, converse_at: None, udp_after_ms: Some(900), expect_exit: None, observe_ms: 4500 },
         Scenario { name: "stream-request-timeout", script: vec![Act::ForwardBlackhole(150), Act::Healthy], max_retry_count: 0, max_retry_interval: 400, converse_at: Some(250), udp_after_ms: None, expect_exit: None, observe_ms: 4500 },
+        // a long outage in little time: 100 consecutive failures with a tiny retry cap, then the server is back
+        Scenario { name: "long-outage-100", script: { let mut v = vec![Act::Rst; 100]; v.push(Act::Healthy); v }, max_retry_count: 0, max_retry_interval: 3, converse_at: Some(50), udp_after_ms: None, expect_exit: None, observe_ms: 3500 },
     ];
     if thorough {
         for i in 0..12 {
